@@ -41,7 +41,7 @@ def r1_run_xmlsec(run):
     vcalls = [nd for nd, c in cfg.call_nodes("parse_xmlsec_output")]
     ok = len(vcalls) == 1
     if ok:
-        gs = facts(cfg, vcalls[0].id)
+        gs = facts(cfg, vcalls[0].id, inline=False)
         ok = gs == {Q("validate_output", True)} or \
             Q("validate_output", True) in gs and len(gs) <= 2
         c = [c for nd, c in cfg.call_nodes("parse_xmlsec_output")][0]
